@@ -4,5 +4,7 @@ K2 == <<"prod", "cons">>
 K3 == <<"prod", "filt", "cons">>
 K3e == <<"prod", "early", "cons">>
 K4 == <<"prod", "filt", "filt", "cons">>
+K1e == <<"eprod">>
+K2e == <<"prod", "eprod">>
 K4e == <<"prod", "filt", "early", "cons">>
 ====
